@@ -292,7 +292,8 @@ Qed.
 (** * ComplexModelBase.customize with child_attrs / child_attrs_all *)
 Lemma customize_complex_ok : forall fuel s c kw ca caa s' n,
   inv s -> customize_complex fuel s c kw ca caa = ROk (s', n) ->
-  n = size s /\ size s < size s' /\ inv s' /\ ext (size s) s s' /\ root_of s' n = root_of s c.
+  n = size s /\ size s < size s' /\ inv s' /\ ext (size s) s s' /\ root_of s' n = root_of s c /\
+  exists s0, customize_plain s c kw = ROk (s0, n) /\ ext (size s) s0 s'.
 Proof.
   induction fuel; intros s c kw ca caa s' n I H; [discriminate |].
   simpl in H. rdesp H as s0 n0 E.
@@ -347,13 +348,15 @@ Proof.
     + apply ext_size in XX. lia.
     + apply inv_set_dca. auto.
     + eapply ext_trans; [apply D3 | apply XX].
-    + rewrite <- D5. eapply root_of_ext; eauto.
+    + split; [rewrite <- D5; eapply root_of_ext; eauto |].
+      exists s0. split; [reflexivity | exact XX].
   - inversion H; subst.
     assert (L0 : exists r0, lookup s0 (size s) = Some r0) by (apply lookup_lt_some; lia).
     destruct L0 as [r0 L0].
     split; auto. split; [lia |]. split; auto. split.
     + eapply ext_trans; eauto.
-    + rewrite <- D5. eapply root_of_ext; eauto.
+    + split; [rewrite <- D5; eapply root_of_ext; eauto |].
+      exists s0. split; [reflexivity | exact X3].
 Qed.
 
 Definition extended (s : store) (c : cid) (s' : store) (n : cid) : Prop :=
@@ -374,8 +377,12 @@ Proof.
   destruct (c_kind r) eqn:K.
   - destruct ca; try discriminate. destruct caa; try discriminate. destruct ne; try discriminate.
     apply derived_extended; auto. eapply customize_simple_derived; eauto.
-  - destruct (noexc_pre ca caa ne) as [ca' caa']. eapply customize_complex_ok; eauto.
-  - destruct (noexc_pre ca caa ne) as [ca' caa']. eapply customize_complex_ok; eauto.
+  - destruct (noexc_pre ca caa ne) as [ca' caa'].
+    destruct (customize_complex_ok _ _ _ _ _ _ _ _ I H) as [A [B [C [D [E _]]]]].
+    unfold extended. auto.
+  - destruct (noexc_pre ca caa ne) as [ca' caa'].
+    destruct (customize_complex_ok _ _ _ _ _ _ _ _ I H) as [A [B [C [D [E _]]]]].
+    unfold extended. auto.
 Qed.
 
 (** * Array(serializer, **kw) / Iterable(...) *)
